@@ -336,6 +336,19 @@ def collect_async_edits(sf, lo, hi, edits, log):
 
 
 # ------------------------------------------------------------------ item lookup
+def compact(toks):
+    """canonical header text: no spaces except between two word-like tokens
+    e.g. `impl<C>Group<C>where C:ClientConfig+Clone`"""
+    out = []
+    prev = None
+    for t in toks:
+        if prev is not None and prev.kind in ('ident', 'num', 'life') and t.kind in ('ident', 'num', 'life'):
+            out.append(' ')
+        out.append(t.text)
+        prev = t
+    return ''.join(out)
+
+
 def find_impl(sf, header_pat):
     """Return (open_brace_idx, header_text) of the impl block whose normalised header
     matches regex header_pat.  Exactly one must match."""
@@ -353,8 +366,7 @@ def find_impl(sf, header_pat):
             continue
         if is_id(t, 'impl') and (sf.parent[i] is None or True):
             b = find_block_open(sf, i, len(T))
-            header = ' '.join(x.text for x in T[i:b])
-            header = re.sub(r'\s+', ' ', header)
+            header = compact(T[i:b])
             if re.search(header_pat, header):
                 # cfg on the impl itself
                 hits.append((i, b, header))
@@ -604,6 +616,11 @@ def parse_vc(path):
             unit['header'] = block('#end')
         elif s == '#raw':
             unit['sections'].append({'kind': 'raw', 'text': block('#end')})
+        elif s.startswith('#include '):
+            inc = os.path.join(os.path.dirname(os.path.abspath(path)), s.split(None, 1)[1].strip())
+            if not os.path.exists(inc):
+                raise ExtractError(f'{path}: missing include {inc}')
+            unit['sections'].append({'kind': 'raw', 'text': f'// ---- include {os.path.basename(inc)}\n' + open(inc).read()})
         elif s.startswith('#type '):
             m = re.match(r'#type\s+(\S+)\s*::\s*(struct|enum)\s+(\w+)(.*)$', s)
             if not m:
@@ -870,11 +887,69 @@ def extract_type(repo, spec, features):
             if is_p(T[e], '('):
                 e = sf.pairs[e] + 1
             edits.add(T[j].start, T[e].start, '', 'drop', 'field vis')
+    # E4': everything extracted lives in one module; normalise visibility to `pub`
+    # (Verus requires types mentioned in trait-impl contracts to be visible everywhere)
+    edits.add(T[kw].start, T[kw].start, 'pub ', 'rewrite', 'vis')
+    if body_open is not None and spec['tkind'] == 'struct':
+        bc = sf.pairs[body_open]
+        j = body_open + 1
+        at_start = True
+        angle = 0
+        while j < bc:
+            t = T[j]
+            a = attr_span(sf, j)
+            if at_start and a is not None:
+                j = a
+                continue
+            if at_start:
+                # a field removed by cfg is inside a dropped region: the insertion is dropped too
+                k2 = j
+                if is_id(T[k2], 'pub'):
+                    k2 += 1
+                    if is_p(T[k2], '('):
+                        k2 = sf.pairs[k2] + 1
+                edits.add(T[k2].start, T[k2].start, 'pub ', 'rewrite', 'field vis')
+                at_start = False
+            if t.kind == 'punct' and t.text in '([{':
+                j = sf.pairs[j] + 1
+                continue
+            if is_p(t, '<'):
+                angle += 1
+            elif is_p(t, '>') and not (is_p(T[j - 1], '-') or is_p(T[j - 1], '=')):
+                angle -= 1
+            if is_p(t, ',') and angle == 0:
+                at_start = True
+            j += 1
     lo, hi = T[first].start, (T[end].start if end < len(T) else len(sf.text))
     out = edits.apply(sf.text[lo:hi], lo)
-    if 'pub-fields' in spec['opts']:
-        pass
-    return {'text': out.rstrip(), 'log': log, 'file': spec['file'],
+    # D1/D2: the source item's own #[derive(..)] list decides which assumed impls may be emitted
+    derives = set()
+    j = first
+    while j < k:
+        nxt = attr_span(sf, j)
+        if nxt is None:
+            break
+        if is_id(T[j + 2], 'derive'):
+            derives |= {t.text for t in T[j + 3:nxt] if t.kind == 'ident'}
+        j = nxt
+    extra = ''
+    nm = spec['name']
+    if 'derive-eq' in spec['opts']:
+        if 'PartialEq' not in derives:
+            raise ExtractError(f'{nm}: derive-eq requested but the source does not derive PartialEq')
+        extra += (f'\n// D1 (assumed): #[derive(PartialEq)] on {nm} is structural equality\n'
+                  f'impl vstd::std_specs::cmp::PartialEqSpecImpl for {nm} {{\n'
+                  f'    open spec fn obeys_eq_spec() -> bool {{ true }}\n'
+                  f'    open spec fn eq_spec(&self, other: &Self) -> bool {{ *self == *other }}\n}}\n'
+                  f'impl PartialEq for {nm} {{ #[verifier::external_body] fn eq(&self, other: &Self) -> bool {{ unimplemented!() }} }}\n')
+        log.append({'step': 'D1', 'assumed': f'derived PartialEq of {nm} is structural'})
+    if 'derive-clone' in spec['opts']:
+        if 'Clone' not in derives:
+            raise ExtractError(f'{nm}: derive-clone requested but the source does not derive Clone')
+        extra += (f'\n// D2 (assumed): #[derive(Clone)] on {nm} returns an equal value\n'
+                  f'impl Clone for {nm} {{ #[verifier::external_body] fn clone(&self) -> (r: Self) ensures r == *self {{ unimplemented!() }} }}\n')
+        log.append({'step': 'D2', 'assumed': f'derived Clone of {nm} returns an equal value'})
+    return {'text': out.rstrip() + extra, 'log': log, 'file': spec['file'],
             'line': sf.line_of(T[kw].start), 'name': spec['name']}
 
 
